@@ -104,17 +104,18 @@ func (g *Graph) continueWalking(found chan x509.CertificateChain, start *GraphEd
 		targetNode := g.nodesBySubjectAndKey[skfp]
 
 		// Check to see if these edges are taking us to something already in the
-		// chain. If the node's SubjectAndKey is already in the chain, don't bother.
-		if targetNode != nil {
-			if soFar.SubjectAndKeyInChain(targetNode.SubjectAndKey) {
-				continue
-			}
-		}
+		// chain. If the node's SubjectAndKey is already in the chain, don't bother
+		// with the edges we would have to walk through. A root edge ends the chain:
+		// its issuer is never visited, so it is still followed.
+		issuerInChain := targetNode != nil && soFar.SubjectAndKeyInChain(targetNode.SubjectAndKey)
 
 		// We're not going to revisit anything now. On the off chance the targetNode
 		// was nil, we also aren't doing a duplicate visit, because if we were, the
 		// edge would not be dangling.
 		for _, edge := range edgeSet.edges {
+			if issuerInChain && !edge.root {
+				continue
+			}
 			certType := x509.CertificateTypeIntermediate
 			if edge.root {
 				certType = x509.CertificateTypeRoot
